@@ -96,8 +96,13 @@ def replay_one(case):
     want_text = "".join(ATOMS[variant % 3][a] for a in case["out"])
     res = []
     notes = []
+    # every second namespace case: the names the template assigns are ALSO bound as (large, multi-byte) render data - the assigned value
+    # shadows a binding that is not a local; what the limit measures (the local namespace) is the same
+    data = {}
+    if case["M"] >= 0 and variant % 2:
+        data = {r["n"]: "\u00df" * 40 for r in case["prog"] if r["op"] == "assign"}
     for how in ("sync", "async"):
-        o = harness.run(env, src, {}, how)
+        o = harness.run(env, src, data, how)
         got = "ok" if "out" in o else o["err"]
         why = None
         limit_err = "OutputStreamLimitError" if case["family"] == "output" else "LocalNamespaceLimitError"
@@ -167,7 +172,7 @@ def run(tier: str) -> int:
     # the output family must raise iff the unlimited output is longer than L; the namespace mechanism is the requirement itself
     unl = {json_key(c["prog"]): c for c in cases if c["L"] < 0 and c["M"] < 0 and c["status"] == "ok"}
     for i, c in enumerate(cases):
-        c["_variant"] = i % 3 if c["family"] == "output" else 0
+        c["_variant"] = i % 3 if c["family"] == "output" else i % 2     # namespace family: variant 1 binds the assigned names as render data too
         u = unl.get(json_key(c["prog"]))
         if c["family"] == "output":
             c["_must_raise"] = bool(u) and c["L"] >= 0 and u["bytes"] > c["L"]
